@@ -46,6 +46,10 @@ spec fn local_ebits_disc<M: Model, V>(m: M, d: Map<&'static str, V>, bits: Set<u
 spec fn local_exact<M: Model>(m: M, bits: Set<usize>, full: Seq<M::State>) -> bool {
     forall|i: int| 0 <= i < m.props().len() ==> #[trigger] ebit_exact(m, bits, full, i)
 }
+// if s is a dead end, every eventually bit still set has a discovery (what the `if is_terminal` loop has to achieve)
+spec fn bits_recorded<M: Model, V>(m: M, d: Map<&'static str, V>, s: M::State, bits: Set<usize>) -> bool {
+    is_dead_end(m, s) ==> forall|x: int| 0 <= x < m.props().len() && bits.contains(x as usize) ==> d.contains_key((#[trigger] m.props()[x]).name)
+}
 // the n-th action of s leads to an in-boundary successor
 spec fn in_succ_at<M: Model>(m: M, s: M::State, n: int) -> bool {
     match m.nxt(s, m.acts(s)[n]) { Some(t) => m.within(t), None => false }
@@ -198,6 +202,10 @@ proof fn tested_step<M: Model, V>(m: M, d2: Map<&'static str, V>, d1: Map<&'stat
 // A-FP, as an explicit hypothesis: no two reachable states share a fingerprint
 spec fn fp_inj_reach<M: Model>(m: M) -> bool {
     forall|a: M::State, b: M::State| reach(m, a) && reach(m, b) && #[trigger] fp_of(a) == #[trigger] fp_of(b) ==> a == b
+}
+// every model path is the only path to its last state: the reachable graph is a forest
+spec fn unique_path<M: Model>(m: M) -> bool {
+    forall|a: Seq<M::State>, b: Seq<M::State>| #[trigger] is_path(m, a) && #[trigger] is_path(m, b) && a.last() == b.last() ==> a == b
 }
 // `Property` names are pairwise distinct (the checker keys its discoveries by name)
 spec fn names_distinct<M: Model>(m: M) -> bool {
